@@ -66,6 +66,10 @@ def generate(ctx, rng):
     for j in range(4 if ctx.tier == "quick" else 60):
         yield ("wire-session", j), {"kind": "wire-session", "frame": b"", "id": rng.choice(BOUNDARY_IDS), "n": 300, "sseed": rng.getrandbits(32),
                                     "epoch": _rand_epoch(rng)}
+    # the device also pushes packets of its own between two requests (each must come back from the next send(), in order)
+    for j in range(6 if ctx.tier == "quick" else 600):
+        yield ("wire-session-push", j), {"kind": "wire-session", "frame": b"", "id": rng.choice(BOUNDARY_IDS), "n": 30, "sseed": rng.getrandbits(32),
+                                         "epoch": _rand_epoch(rng), "push": True}
     # the id the client was configured with need not be the id the device puts into its own packets (0 = "unknown" is the
     # command line tool's default): every request must still carry the configured id
     for j in range(16 if ctx.tier == "quick" else 2000):
@@ -119,7 +123,18 @@ def _wire_session(ctx, case):
     dev = SimDevice(net, version=2, device_id=did & (2 ** 64 - 1))
     seen = []
     rid = case.get("reply_id", did)
-    dev.on_exchange = lambda conn, req, packets, meta: (seen.append((req, meta["v2"]["device_id"])) or [(0, v2.build(req[::-1], rid))])
+    pushed = {}       # exchange index -> frames the device pushes on its own a moment after that exchange's reply
+
+    def on_exchange(conn, req, packets, meta):
+        seen.append((req, meta["v2"]["device_id"]))
+        acts = [(0, v2.build(req[::-1], rid))]
+        if case.get("push") and len(seen) % 3 == 1:
+            extra = [r.randbytes(r.choice([0, 1, 16, 33])) for _ in range(r.randint(1, 3))]
+            pushed[len(seen)] = extra
+            acts += [(0.05 + 0.01 * j, v2.build(x, rid)) for j, x in enumerate(extra)]
+        return acts
+
+    dev.on_exchange = on_exchange
     frames = [r.randbytes(r.choice([0, 1, 15, 16, 17, 31, 32, 33, 47, 48, 64, 100, 255])) for _ in range(case["n"])]
     got_all = []
 
@@ -128,6 +143,8 @@ def _wire_session(ctx, case):
         lan = LAN(dev.host, dev.port, did)
         for i, f in enumerate(frames):
             got_all.append(await lan.send(f))
+            if case.get("push"):
+                await asyncio.sleep(0.3)          # the reports pushed after the reply have all arrived before the next request
             if i % 50 == 49:
                 await asyncio.sleep(r.choice([0.5, 3600, 86400 * 30]))
 
@@ -142,8 +159,11 @@ def _wire_session(ctx, case):
         if i >= len(seen) or seen[i] != (f, did):
             ctx.violation("wire-request-mismatch", f"send {i} of a session decodes to a different frame/id on the device", case)
             break
-        if [bytes(x) for x in got_all[i]] != [f[::-1]]:
-            ctx.violation("wire-response-mismatch", f"send {i} of a session returned different frames than the device sent", case)
+        # frames the device pushed between two requests are what the next send() returns first, then its own reply
+        want = list(pushed.get(i, [])) + [f[::-1]]
+        if [bytes(x) for x in got_all[i]] != want:
+            ctx.violation("wire-response-mismatch", f"send {i} of a session returned different frames than the device sent "
+                          f"({len(got_all[i])} frames, the device produced {len(want)} since the previous send)", case)
             break
 
 
